@@ -11,6 +11,10 @@ mod c05;
 mod c06;
 mod c07;
 mod c08;
+mod c09;
+mod c10;
+mod c12;
+mod c14;
 mod c17;
 
 use proto::Recorder;
@@ -23,6 +27,9 @@ fn main() {
         std::process::exit(2);
     }
     let prop = args[1].clone();
+    if prop == "c10child" {
+        std::process::exit(enf::c10_child(&args[2], &args[3], &args[4], args[5].parse().unwrap()));
+    }
     let mut tier = "quick".to_string();
     let mut seed: u64 = 1;
     let mut budget: u64 = 1;
@@ -63,6 +70,10 @@ fn main() {
         "C07" => c07::run(&mut rec, &mut w, &tier, seed),
         "C08" => c08::run(&mut rec, &mut w, &tier, seed),
         "C17" => c17::run(&mut rec, &mut w, &tier, seed),
+        "C09" => c09::run(&mut rec, &mut w, &tier, seed),
+        "C10" => c10::run(&mut rec, &mut w, &tier, seed),
+        "C12" => c12::run(&mut rec, &mut w, &tier, seed),
+        "C14" => c14::run(&mut rec, &mut w, &tier, seed),
         "C02" => c02::run(&mut rec, &mut w, &tier, seed),
         "C03" => c03::run(&mut rec, &mut w, &tier, seed),
         "C04" => c04::run(&mut rec, &mut w, &tier, seed),
